@@ -180,7 +180,7 @@ pub fn check(c: &Case) -> Verdict {
     classes.sort();
     classes.dedup();
     let sample = serde_json::json!({"coin": coin.cli(), "hostile": c.hostile.iter().map(|h| serde_json::json!({"place": format!("{:?}", h.place), "len": h.bytes.len(), "head": vpmodel::hashes::hex(&h.bytes[..h.bytes.len().min(40)])})).collect::<Vec<_>>()});
-    Verdict::Pass(Pass { nontrivial, key: key_of(&c.hostile.iter().map(|h| vpmodel::hashes::hex(&h.bytes)).collect::<Vec<_>>()), classes, known: vec![], sub_evals: runs, sample: Some(sample) })
+    Verdict::Pass(Pass { nontrivial, key: key_of(&c.hostile.iter().map(|h| vpmodel::hashes::hex(&h.bytes)).collect::<Vec<_>>()), classes, known: vec![], sub_evals: runs, sample: Some(sample), extra_keys: vec![] })
 }
 
 fn key_of_row(l: &str) -> String {
